@@ -236,6 +236,10 @@ def _pure(init, lvalue):
     kinds = PURE_LVALUE_KINDS if lvalue else PURE_VALUE_KINDS
     for x in walk(init):
         k = x.get("k")
+        if k == "Call" and re.match(r"^std::numeric_limits<.*>::(max|min|lowest|epsilon|digits)$", x.get("callee") or x.get("cfull") or "") and not x.get("a"):
+            continue          # compile-time constant
+        if k == "OpCall" and not lvalue and x.get("op") == "[]" and (x.get("cconst") or re.match(r"^(std::|FEAT::String$)", x.get("ccls") or "")):
+            continue          # element read of a string / standard container
         if k not in kinds:
             return False
         if k == "MCall" and not (x.get("cconst") or (lvalue and ACCESSOR_RE.match(x.get("n") or "")) or
